@@ -152,23 +152,23 @@ End AnyEmpty.
    tree, each embedded at its absolute sub-mode range (any nesting, any offsets, any size) *)
 Theorem polar_cmat_product (c : pcomp) : pwf c ->
   meq (2 * pwidth c) (cmat (pdouble c)) (oprod (2 * pwidth c) (leaf_mats (2 * pwidth c) (flatten 0 (pdouble c)))).
-Proof. exact (polar_cmat_product_g ones c). Qed.
-(* ... and those leaves are exactly the circuit's own leaves: a spatial k-mode matrix doubled at
-   sub-modes [2 off, 2 off + 2k), a polarising one as it is *)
+Proof. exact (polar_cmat_product_g mid c). Qed.
+(* ... and, empty sub-circuits (which contribute the identity) apart, those leaves are exactly the circuit's
+   own leaves: a spatial k-mode matrix doubled at sub-modes [2 off, 2 off + 2k), a polarising one as it is *)
 Theorem flatten_pdouble (c : pcomp) : no_empty c -> forall off,
   flatten (2 * off) (pdouble c) = map dleaf (pflatten off c).
-Proof. exact (flatten_pdouble_g ones c). Qed.
-(* second clause: the doubled matrix of a circuit is unitary when its leaves are (spatial leaves k x k,
-   polarising leaves 2k x 2k), provided no sub-circuit is empty *)
-Theorem polar_unitary (c : pcomp) : pwf c -> no_empty c -> pleaves_unitary c ->
+Proof. exact (flatten_pdouble_g mid c). Qed.
+(* second clause: the doubled matrix of EVERY well-formed circuit is unitary when its leaves are (spatial leaves
+   k x k, polarising leaves 2k x 2k); an empty circuit contributes eye(2m) *)
+Theorem polar_unitary (c : pcomp) : pwf c -> pleaves_unitary c ->
   unitary (2 * pwidth c) (cmat (pdouble c)).
-Proof. intros H1 H2 H3. apply (polar_unitary_g ones c H1); auto. Qed.
-(* with the one-line repair (an empty circuit contributes eye(2m)) the clause holds for every circuit *)
-Theorem polar_unitary_fixed (c : pcomp) : pwf c -> pleaves_unitary c ->
-  unitary (2 * pwidth c) (cmat (pdouble_fixed c)).
 Proof. intros H1 H3. apply (polar_unitary_g mid c H1); auto. right. intros n. apply unitary_id. Qed.
+(* the code before e38f1486: only when no sub-circuit is empty *)
+Theorem polar_unitary_old (c : pcomp) : pwf c -> no_empty c -> pleaves_unitary c ->
+  unitary (2 * pwidth c) (cmat (pdouble_old c)).
+Proof. intros H1 H2 H3. apply (polar_unitary_g ones c H1); auto. Qed.
 
-(* pol_unitary on circuits without empty sub-circuits never raises and returns that matrix *)
+(* pol_unitary_old on circuits without empty sub-circuits never raises and returns that matrix *)
 Lemma pol_raises_no_empty (c : pcomp) : no_empty c -> pol_raises c = false.
 Proof. induction c as [pol k U | m items IH] using pcomp_ind'; intros Hne. reflexivity.
   apply (proj1 (no_empty_Sub _ _)) in Hne. destruct Hne as [_ Hit]. cbn [pol_raises].
@@ -177,9 +177,9 @@ Proof. induction c as [pol k U | m items IH] using pcomp_ind'; intros Hne. refle
   destruct c as [pol k U | m' [|i its]]. reflexivity.
   - destruct Hit as [Hc _]. apply (proj1 (no_empty_Sub _ _)) in Hc. destruct Hc. congruence.
   - apply H1. tauto. Qed.
-Theorem pol_unitary_ok (c : pcomp) : no_empty c ->
-  pol_unitary c = PolMat (2 * pwidth c) (cmat (pdouble c)).
-Proof. intros Hne. unfold pol_unitary. rewrite (pol_raises_no_empty c Hne).
+Theorem pol_unitary_old_ok (c : pcomp) : no_empty c ->
+  pol_unitary_old c = PolMat (2 * pwidth c) (cmat (pdouble_old c)).
+Proof. intros Hne. unfold pol_unitary_old. rewrite (pol_raises_no_empty c Hne).
   destruct c as [pol k U | m [|i its]]; try reflexivity.
   apply (proj1 (no_empty_Sub _ _)) in Hne. destruct Hne. congruence. Qed.
 
@@ -297,7 +297,7 @@ Proof. destruct st as [|v1 n1|v1 v2 n1 n2|c]; simpl; intros Hg Hv; auto.
 Lemma fold_good vs : forall st, mgood st -> Forall normed vs -> mgood (fold_left (mstep eqb) vs st).
 Proof. induction vs as [|v vs IH]; intros st Hg Hn; simpl. exact Hg.
   inversion Hn; subst. apply IH; auto. apply mstep_good; auto. Qed.
-Lemma mgood_bunit st : mgood st -> bunit (mblock st).
+Lemma mgood_bunit st : mgood st -> bunit (mblock_old st).
 Proof. destruct st as [|[eh ev] n1|[eh1 ev1] [eh2 ev2] n1 n2|c]; simpl; intros Hg; try apply bunit_id.
   - unfold normed in Hg. simpl in Hg. rewrite !conj_opp, !conj_invol.
     repeat split; try (rewrite <- Hg; ring); ring.
@@ -312,10 +312,10 @@ Proof. destruct st as [|[eh ev] n1|[eh1 ev1] [eh2 ev2] n1 n2|c]; simpl; intros H
 
 (* third clause: the preparation matrix built from normalised Jones vectors is unitary, for every
    number of modes and photons, one or two polarisations per mode *)
-Theorem prep_unitary (inp : pinput R) : Forall (Forall normed) inp ->
-  unitary (2 * length inp) (prep_matrix (prep_states eqb inp)).
+Theorem prep_unitary_old (inp : pinput R) : Forall (Forall normed) inp ->
+  unitary (2 * length inp) (prep_matrix_old (prep_states eqb inp)).
 Proof. intros H. apply bdiag_unitary. intros k. unfold prep_states. rewrite map_map.
-  destruct (nth_in_or_default k (map (fun x => mblock (mode_prep eqb x)) inp) idblock) as [Hin|Hd].
+  destruct (nth_in_or_default k (map (fun x => mblock_old (mode_prep eqb x)) inp) idblock) as [Hin|Hd].
   - apply in_map_iff in Hin. destruct Hin as [vs [E Hvs]]. rewrite <- E. apply mgood_bunit.
     apply fold_good. exact I. rewrite Forall_forall in H. apply H. exact Hvs.
   - rewrite Hd. apply bunit_id. Qed.
@@ -374,7 +374,7 @@ Proof. apply veqb_eq. reflexivity. Qed.
 Definition idx1 (v1 v : jones) : nat := if veqb eqb v1 v then 0%nat else 1%nat.
 Definition midx (st : mprep) (v : jones) : nat :=
   match st with MP1 v1 _ => idx1 v1 v | MP2 v1 _ _ _ => idx1 v1 v | _ => 0%nat end.
-Definition mvec (st : mprep) (i : nat) : jones := (bentry (mblock st) 0 i, bentry (mblock st) 1 i).
+Definition mvec (st : mprep) (i : nat) : jones := (bentry (mblock_old st) 0 i, bentry (mblock_old st) 1 i).
 Lemma midx_lt st v : (midx st v < 2)%nat.
 Proof. destruct st; simpl; unfold idx1; try destruct (veqb eqb v1 v); lia. Qed.
 
@@ -470,15 +470,15 @@ Proof. induction l; simpl; intros H; constructor; auto. Qed.
 
 Lemma cols_spec (U : mat) (all : pinput R) m : length all = m -> first_err (prep_states eqb all) = None ->
   forall suf pre, all = pre ++ suf ->
-  Forall2 (ptw (2 * m)) (map (colvec (xmul (2 * m) U (prep_matrix (prep_states eqb all)))) (idxs (length pre) suf))
+  Forall2 (ptw (2 * m)) (map (colvec (xmul (2 * m) U (prep_matrix_old (prep_states eqb all)))) (idxs (length pre) suf))
           (spec_cols U (length pre) suf).
 Proof. intros Hm He. induction suf as [|vs r IH]; intros pre Hall. constructor.
   cbn [idxs spec_cols]. rewrite map_app. apply Forall2_app.
   - rewrite map_map. apply Forall2_map_in. intros v Hv j Hj.
     assert (Hk : (length pre < m)%nat). { rewrite <- Hm, Hall, app_length. simpl. lia. }
     pose proof (midx_lt (mode_prep eqb vs) v) as Hi.
-    unfold colvec. rewrite xmul_eq by lia. unfold prep_matrix. rewrite mmul_bdiag_col by assumption.
-    assert (En : nth (length pre) (map (mblock (R:=R)) (prep_states eqb all)) idblock = mblock (mode_prep eqb vs)).
+    unfold colvec. rewrite xmul_eq by lia. unfold prep_matrix_old. rewrite mmul_bdiag_col by assumption.
+    assert (En : nth (length pre) (map (mblock_old (R:=R)) (prep_states eqb all)) idblock = mblock_old (mode_prep eqb vs)).
     { unfold prep_states. rewrite Hall, !map_app, app_nth2 by (rewrite !map_length; lia).
       rewrite !map_length, Nat.sub_diag. reflexivity. }
     rewrite En.
@@ -499,9 +499,9 @@ Proof. induction t as [|x t IH]; intros j0; simpl. reflexivity.
    input accepted by convert_polarized_state and EVERY spatial output t, the amplitude computed by the
    implementation's route -- the ordinary engine specification applied to U . Prep and the spatial input --
    equals the permanent whose columns are U . (eh |2k> + ev |2k+1>), one per photon *)
-Theorem impl_eq_spec (U : mat) (inp : pinput R) m t : length inp = m ->
-  first_err (prep_states eqb inp) = None -> impl_amp eqb U m inp t = spec_amp U m inp t.
-Proof. intros Hm He. unfold impl_amp, spec_amp, amp_num, cols_of, rows_of.
+Theorem impl_eq_spec_old (U : mat) (inp : pinput R) m t : length inp = m ->
+  first_err (prep_states eqb inp) = None -> impl_amp_old eqb U m inp t = spec_amp U m inp t.
+Proof. intros Hm He. unfold impl_amp_old, spec_amp, amp_num, cols_of, rows_of.
   pose proof (cols_perm inp 0 He) as P. simpl (2 * 0)%nat in P.
   pose proof (cols_spec U inp m Hm He inp [] eq_refl) as F. simpl length in F.
   destruct (total (spatial_input (prep_states eqb inp)) =? total t)%nat eqn:E.
@@ -509,8 +509,8 @@ Proof. intros Hm He. unfold impl_amp, spec_amp, amp_num, cols_of, rows_of.
   - symmetry. apply permC_zero_if_n_differs. apply Nat.eqb_neq in E.
     rewrite <- (Forall2_len _ _ _ F), map_length, <- (Permutation_length P), rows_from_length. auto. Qed.
 
-(* what is executed (one shared matrix product for all outputs) is the list of impl_amp values *)
-Lemma impl_amps_eq (U : mat) m (inp : pinput R) ts : impl_amps eqb U m inp ts = map (impl_amp eqb U m inp) ts.
+(* what is executed (one shared matrix product for all outputs) is the list of impl_amp_old values *)
+Lemma impl_amps_old_eq (U : mat) m (inp : pinput R) ts : impl_amps_old eqb U m inp ts = map (impl_amp_old eqb U m inp) ts.
 Proof. reflexivity. Qed.
 
 (* ---------------- normalisation: prod s'! is the squared norm of the polarised input ---------------- *)
@@ -579,18 +579,58 @@ Proof. induction inp as [|vs r IH]; intros He. reflexivity.
   cbn [prep_states map spatial_input flat_map spec_norm_in fold_right]. rewrite factprod_app, (mode_norm vs Em).
   f_equal. apply IH. exact He. Qed.
 
-(* convert returns the spatial input and the preparation matrix exactly when some mode holds a photon;
+(* convert_old returns the spatial input and the preparation matrix exactly when some mode holds a photon;
    with no photon at all the matrix stays None (and the simulator's `upol @ None` raises) *)
-Theorem convert_ok (inp : pinput R) : first_err (prep_states eqb inp) = None -> no_photon inp = false ->
+Theorem convert_old_ok (inp : pinput R) : first_err (prep_states eqb inp) = None -> no_photon inp = false ->
+  convert_old eqb inp = ConvOk (spatial_input (prep_states eqb inp)) (prep_matrix_old (prep_states eqb inp)).
+Proof. intros H1 H2. unfold convert_old. rewrite H1, H2. reflexivity. Qed.
+(* ---------------- the code as it is now (19d38de0, 53c82d36) ---------------- *)
+(* two normalised orthogonal vectors: the second IS phase * (complement of the first) with phase = <c, v2>, and
+   |phase| = 1 -- so the division by |phase| in the code is the identity and the block is the one written before *)
+Lemma complement_phase (v1 v2 : jones) : normed v1 -> normed v2 -> inner v1 v2 = k0 ->
+  let ch := - kconj (snd v1) in let cv := kconj (fst v1) in
+  let ph := kconj ch * fst v2 + kconj cv * snd v2 in
+  ph * ch = fst v2 /\ ph * cv = snd v2 /\ ph * kconj ph = k1.
+Proof. destruct v1 as [eh1 ev1], v2 as [eh2 ev2]. unfold normed, inner. simpl. intros N1 N2 O.
+  rewrite conj_opp, !conj_invol.
+  assert (E1 : (- ev1 * eh2 + eh1 * ev2) * - kconj ev1 = eh2).
+  { transitivity ((eh1 * kconj eh1 + ev1 * kconj ev1) * eh2 - eh1 * (kconj eh1 * eh2 + kconj ev1 * ev2)). ring.
+    rewrite N1, O. ring. }
+  assert (E2 : (- ev1 * eh2 + eh1 * ev2) * kconj eh1 = ev2).
+  { transitivity ((eh1 * kconj eh1 + ev1 * kconj ev1) * ev2 - ev1 * (kconj eh1 * eh2 + kconj ev1 * ev2)). ring.
+    rewrite N1, O. ring. }
+  split; [exact E1|split; [exact E2|]].
+  rewrite conj_add, !conj_mul, conj_opp. rewrite <- N2.
+  transitivity ((- ev1 * eh2 + eh1 * ev2) * - kconj ev1 * kconj eh2 + (- ev1 * eh2 + eh1 * ev2) * kconj eh1 * kconj ev2).
+  ring. rewrite E1, E2. ring. Qed.
+Lemma mblock_eq st : mgood st -> mblock st = mblock_old st.
+Proof. destruct st as [|v1 n1|v1 v2 n1 n2|c]; try reflexivity. intros [N1 [N2 O]].
+  destruct (complement_phase v1 v2 N1 N2 O) as [E1 [E2 _]]. cbn [mblock mblock_old]. cbv zeta. rewrite E1, E2. reflexivity. Qed.
+Lemma prep_matrix_eq (inp : pinput R) : Forall (Forall normed) inp ->
+  prep_matrix (prep_states eqb inp) = prep_matrix_old (prep_states eqb inp).
+Proof. intros H. unfold prep_matrix, prep_matrix_old. f_equal. apply map_ext_in. intros st Hin.
+  apply mblock_eq. unfold prep_states in Hin. apply in_map_iff in Hin. destruct Hin as [vs [<- Hvs]].
+  apply fold_good. exact I. rewrite Forall_forall in H. apply H. exact Hvs. Qed.
+
+(* third clause: the preparation matrix built from normalised Jones vectors is unitary, for every
+   number of modes and photons, one or two polarisations per mode, the vacuum included *)
+Theorem prep_unitary (inp : pinput R) : Forall (Forall normed) inp ->
+  unitary (2 * length inp) (prep_matrix (prep_states eqb inp)).
+Proof. intros H. rewrite (prep_matrix_eq inp H). apply prep_unitary_old. exact H. Qed.
+(* the conversion returns a matrix for every accepted input *)
+Theorem convert_ok (inp : pinput R) : first_err (prep_states eqb inp) = None ->
   convert eqb inp = ConvOk (spatial_input (prep_states eqb inp)) (prep_matrix (prep_states eqb inp)).
-Proof. intros H1 H2. unfold convert. rewrite H1, H2. reflexivity. Qed.
-(* with the repair the conversion returns a matrix for every accepted input, the vacuum included *)
-Theorem convert_fixed_ok (inp : pinput R) : first_err (prep_states eqb inp) = None ->
-  convert_fixed eqb inp = ConvOk (spatial_input (prep_states eqb inp)) (prep_matrix (prep_states eqb inp)).
-Proof. intros H. unfold convert_fixed. rewrite H. reflexivity. Qed.
+Proof. intros H. unfold convert. rewrite H. reflexivity. Qed.
+(* fourth clause, the code as it is: for every circuit matrix, every accepted input of normalised Jones vectors
+   (vacuum and two-polarisation modes included) and EVERY output over the sub-modes *)
+Theorem impl_eq_spec (U : mat) (inp : pinput R) m t : length inp = m -> Forall (Forall normed) inp ->
+  first_err (prep_states eqb inp) = None -> impl_amp eqb U m inp t = spec_amp U m inp t.
+Proof. intros Hm Hn He. unfold impl_amp. rewrite (prep_matrix_eq inp Hn). apply (impl_eq_spec_old U inp m t Hm He). Qed.
+Lemma impl_amps_eq (U : mat) m (inp : pinput R) ts : impl_amps eqb U m inp ts = map (impl_amp eqb U m inp) ts.
+Proof. reflexivity. Qed.
 Theorem convert_vacuum (inp : pinput R) : no_photon inp = true ->
-  convert eqb inp = ConvNoMatrix (repeat 0%nat (2 * length inp)).
-Proof. intros H. unfold convert.
+  convert_old eqb inp = ConvNoMatrix (repeat 0%nat (2 * length inp)).
+Proof. intros H. unfold convert_old.
   assert (E : prep_states eqb inp = map (fun _ => MP0) inp).
   { induction inp as [|vs r IH]; simpl in *. reflexivity. destruct vs; try discriminate. rewrite IH; auto. }
   rewrite E, H. clear. induction inp as [|vs r IH]; simpl. reflexivity.
@@ -658,14 +698,14 @@ Proof. unfold inner, jones_standard; simpl.
   transitivity (rh * rh + (ii * ii) * (rh * rh)). ring. rewrite ii2. ring. Qed.
 End Labels.
 
-(* ---------------- what fails in the code as it is ---------------- *)
+(* ---------------- what failed in the code before the fix commits e38f1486, 53c82d36 ---------------- *)
 From PV Require Import Lib.QI.
 (* a 2-mode circuit PBS followed by an empty 1-mode sub-circuit: every leaf is unitary, the circuit is
    well-formed, yet the 4x4 matrix is not unitary (the 1x1 identity of the empty sub-circuit is
    broadcast over a 2x2 block) *)
 Definition witness_empty_sub : pcomp QI := PSub 2 [(0%nat, PLeaf true 2 (pmat pbs_perm)); (0%nat, PSub 1 [])].
-Theorem polar_unitary_refuted : exists c : pcomp QI,
-  pwf c /\ pleaves_unitary QI c /\ pol_raises c = false /\ ~ unitary (2 * pwidth c) (cmat (pdouble c)).
+Theorem polar_unitary_refuted_old_code : exists c : pcomp QI,
+  pwf c /\ pleaves_unitary QI c /\ pol_raises c = false /\ ~ unitary (2 * pwidth c) (cmat (pdouble_old c)).
 Proof. exists witness_empty_sub. split; [|split; [|split]].
   - simpl. lia.
   - simpl. split. apply pbs_unitary. tauto.
@@ -673,9 +713,9 @@ Proof. exists witness_empty_sub. split; [|split; [|split]].
   - intros [H _]. specialize (H 0%nat 0%nat). simpl in H. specialize (H ltac:(lia) ltac:(lia)).
     vm_compute in H. discriminate H. Qed.
 (* a circuit without components reports an m x m identity instead of the 2m x 2m one *)
-Theorem polar_empty_top_refuted : exists c : pcomp QI, pwf c /\ forall U, pol_unitary c <> PolMat (2 * pwidth c) U.
+Theorem polar_empty_top_refuted_old_code : exists c : pcomp QI, pwf c /\ forall U, pol_unitary_old c <> PolMat (2 * pwidth c) U.
 Proof. exists (PSub 1 []). split. simpl. lia. intros U H. discriminate H. Qed.
 (* the vacuum: accepted by the conversion loop, but no preparation matrix comes back *)
-Theorem convert_vacuum_refuted : exists inp : pinput QI,
-  first_err (prep_states (R:=QI) qi_eqb inp) = None /\ forall s P, convert (R:=QI) qi_eqb inp <> ConvOk s P.
+Theorem convert_vacuum_refuted_old_code : exists inp : pinput QI,
+  first_err (prep_states (R:=QI) qi_eqb inp) = None /\ forall s P, convert_old (R:=QI) qi_eqb inp <> ConvOk s P.
 Proof. exists [[]]. split. reflexivity. intros s P H. discriminate H. Qed.
